@@ -80,6 +80,34 @@ RES = {
  "C20-C": ("C20", "caught by quick C20 (get:mismatch, iter:mismatch)", ""),
  "C20-D": ("C20", "caught by quick C20 and quick C10 (arg-modified:batch)", "missed at first: needs a Write that leads a merge group, i.e. concurrent writers; concurrent clients now compare the batch before and after Write, and 15% of C20 cases are concurrent"),
 
+ # ---- round 3 (variants E, F; sub-agents were told all mechanisms of rounds 1-2 and asked for other areas of the code) ----
+ "C01-E": ("C01", "caught by quick C01 (scan:mismatch, get:has-mismatch)", ""),
+ "C01-F": ("C01", "caught by quick C01 (get:mismatch, write-err: keys are not in increasing order)", ""),
+ "C02-E": ("C02", "caught by quick C02 (iter:mismatch)", ""),
+ "C02-F": ("C02", "caught by quick C02 (txiter:mismatch, iter:mismatch)", ""),
+ "C03-E": ("C03", "caught by quick C03 (iter:error, snapiter:error: a pinned version's table was removed)", ""),
+ "C03-F": ("C03", "caught by quick C03 (snapget:has-mismatch)", ""),
+ "C04-E": ("C04", "caught by quick C04 (scan:mismatch, txiter:mismatch)", ""),
+ "C04-F": ("C04", "caught by quick C04 (scan:mismatch, txiter:mismatch)", ""),
+ "C05-E": ("C05", "caught by quick C05 (lin:not-linearizable)", ""),
+ "C05-F": ("C05", "caught by quick C05 (lin:not-linearizable)", ""),
+ "C06-E": ("C06", "caught by quick C06 (lsm:missing-file, lsm:overlap)", ""),
+ "C06-F": ("C06", "caught by quick C06 (lsm:level-seq) and quick C19 (lsm:level-seq, recover:lost-undamaged)", "missed at first by C06 (C19 caught it): needs a repaired DB, where level 0 holds every table in file-number order; 12% of C06 cases now lose the manifest, run Recover and continue with a write-heavy program (small level-0 triggers)"),
+ "C07-E": ("C07", "caught by quick C07 (files-residue:extra:table)", ""),
+ "C07-F": ("C07", "caught by quick C07 (files-residue:extra:table, iter:mismatch)", ""),
+ "C08-E": ("C08", "caught by quick C08 (get:mismatch, scan:mismatch)", "missed at first by the quick tier (the thorough tier found it in 200 s): needs deletion markers compacted downward in a deep tree while a table operation fails and the compaction is retried; added the deep-tombstone variant (15% of C08 fault cases)"),
+ "C08-F": ("C08", "caught by quick C08 (scan:mismatch, iter:mismatch)", ""),
+ "C09-E": ("C09", "caught by quick C09 (hang:db_compaction.go:DB.compTriggerWait / compTriggerRange)", "missed at first: needs a compaction that reads a damaged block (persistent error state); 10% of sequential C09 cases now apply bit rot at rest and then keep writing and compacting"),
+ "C09-F": ("C09", "caught by quick C09 and quick C11 (hang:wg.waiting<db.go:DB.Close)", "missed at first by C09 (quick C11 caught it): 12% of C09 cases now run the Close-versus-retried-commit race under manifest faults that C08 and C11 already had"),
+ "C10-E": ("C10", "caught by quick C10 (lin:not-linearizable, panic:leveldb.(*DB).rotateMem)", ""),
+ "C10-F": ("C10", "caught by quick C10 (hang:DB.OpenTransaction, hang:DB.CompactRange/Write/putRec), quick C09 and quick C18; it is the same change as C18-C, found independently", "missed at first by C10: 15% of concurrent C09/C10 cases now have one client call SetReadOnly among the writers, half of them while a flush is failing and being retried"),
+ "C11-E": ("C11", "caught by quick C11 (txiter:mismatch, tx-open-err); it is the same change as C01-F, found independently", ""),
+ "C11-F": ("C11", "caught by quick C11 (txiter:mismatch, files-residue:extra:table)", ""),
+ "C18-E": ("C18", "caught by quick C18 (closed:race-get-notfound)", "missed at first: a Get racing Close was allowed to report not-found; now a key that is certainly present when the race starts (the racing clients only put) must be found or the closed error returned, for Get, Has, Snapshot.Get and Snapshot.Has"),
+ "C18-F": ("C18", "caught by quick C18 (readonly-mutate:fs:removed, readonly-mutate:fs:created)", "missed at first: the change is in file_storage.go, which the simulated disk replaces; added the ro-fs scenario (the settled image laid out in a real scratch directory with crash leftovers, read-only OpenFile + Open, directory compared entry by entry)"),
+ "C19-E": ("C19", "caught by quick C19 (scan:mismatch, lsm:level-seq); it is the same change as C06-E, found independently", ""),
+ "C19-F": ("C19", "caught by quick C19 (get:has-mismatch, panic:leveldb.internalKey.assert) and quick C16", "missed at first: needs one Options value used for two sessions; the harness now keeps using one Options value while the settings are unchanged (as applications do), and 25% of C19 cases change the filter policy (old one in AltFilters) right before the shutdown that precedes Recover"),
+
 }
 os.makedirs("/verif/seeded", exist_ok=True)
 rows = []
@@ -87,6 +115,8 @@ for name, (prop, caught, note) in sorted(RES.items()):
     src = "/tmp/mut/out/" + name
     if not os.path.exists(src + "/patch.diff"):
         src = "/tmp/mut/out2/" + name
+    if not os.path.exists(src + "/patch.diff"):
+        src = "/tmp/mut/out3/" + name
     if os.path.exists("/verif/seeded/" + name + "/patch.diff") and not os.path.exists(src + "/patch.diff"):
         rows_keep = json.load(open("/verif/seeded/" + name + "/meta.json"))
         rows.append((name, prop, rows_keep.get("result", caught), rows_keep.get("strengthening", note)))
